@@ -157,6 +157,14 @@ fn normalise(b: &Built, res: &RunResult, post: &[Event]) -> (Vec<String>, Vec<St
     match &res.outcome {
         Outcome::Done => {}
         Outcome::Unstuck(_) | Outcome::Deadlock => tail.push(Obj::new("deadlock").int("t", 0).int("d", 0).int("hdepth", res.stuck.iter().map(|s| s.1 as i64).max().unwrap_or(0)).done()),
+        Outcome::Lasso(why) => tail.push(
+            Obj::new("livelock")
+                .int("t", 0)
+                .int("d", 0)
+                .int("hdepth", res.stuck.iter().map(|s| s.1 as i64).max().unwrap_or(0))
+                .str("why", why)
+                .done(),
+        ),
         Outcome::Livelock | Outcome::StepLimit => {
             tail.push(Obj::new("livelock").int("t", 0).int("d", 0).int("hdepth", res.stuck.iter().map(|s| s.1 as i64).max().unwrap_or(0)).done())
         }
@@ -251,6 +259,7 @@ pub fn main(args: &Args) -> i32 {
         cfg.max_nested = args.num("depth", 1);
         cfg.deliver_on = (0..n_threads).collect();
         cfg.deliver_at_start = false;
+        cfg.post_points = args.flag("post-points");
         cfg.handler_atomic = args.flag("handler-atomic");
         cfg.max_spurious = args.num("spurious", 0);
         cfg.preemption_bound = args.get("preempt").map(|s| s.parse().unwrap());
